@@ -511,8 +511,14 @@ impl Installer for Inst {
             }
             if let Some(a) = ans {
                 if let Some(obs) = observer {
-                    for p in a["progress"].as_array().unwrap() {
-                        obs.receive_progress(None, f32::from_bits(p.as_u64().unwrap() as u32), None, None).await;
+                    let ps: Vec<f32> = a["progress"].as_array().unwrap().iter().map(|p| f32::from_bits(p.as_u64().unwrap() as u32)).collect();
+                    if a["concurrent"] == true {
+                        // an installer with several components reporting at once: all reports are in flight together
+                        futures::future::join_all(ps.iter().map(|p| obs.receive_progress(None, *p, None, None))).await;
+                    } else {
+                        for p in ps {
+                            obs.receive_progress(None, p, None, None).await;
+                        }
                     }
                 }
                 for r in a["results"].as_array().unwrap() {
